@@ -4,48 +4,56 @@ The Go text the hand-written models of pipe/queue.go (Model/Queue.lean) and of
 written against: one trimmed line of gofmt-printed source per list element, comments dropped, annotated here with
 the control point / model clause that line became.  go/xlate family `gotext` prints the same functions from the
 working tree on every run (`Gen/PipeText.lean`); the `*_text` theorems of Props/C08Gen.lean, C05Gen.lean state the
-equality.  This is a SYNTACTIC tie (no semantic translation exists for these functions): any edit breaks it and is then
-judged by the enlarged lock-step search.  Core Lean only.
+equality.  This is a SYNTACTIC tie up to the names of locals (no semantic translation exists for these functions): any other edit
+breaks it and is then judged by the enlarged lock-step search.  Core Lean only.
 -/
 namespace Golem.Model.GoText
 
+/-! Names are canonical (family `gotext` renames the type parameters, parameters and locals a function declares to
+`T0…`, `p0…`, `v0…` in declaration order, and reads `for i := range xs { … xs[i] … }` as the value loop): a text that
+differs from the one below only in the choice of those names, or in that loop form, is the same text. -/
+
+/-- `func newq[A any]() *queue[A]`: v0 = queue -/
 def newq_text : List String := [
-  "func newq[A any]() *queue[A] {",
-  "queue := &queue[A]{}",
-  "queue.pool.New = func() interface{} { return &q[A]{} }",
-  "return queue",
+  "func newq[T0 any]() *queue[T0] {",
+  "v0 := &queue[T0]{}",
+  "v0.pool.New = func() interface{} { return &q[T0]{} }",
+  "return v0",
   "}"]
 
+/-- `func Seq[T any](xs ...T) <-chan T`: p0 = xs, v0 = out, v1 = x -/
 def Seq_text : List String := [
-  "func Seq[T any](xs ...T) <-chan T {",
-  "out := make(chan T, len(xs))",
-  "for _, x := range xs {",
-  "out <- x",
+  "func Seq[T0 any](p0 ...T0) <-chan T0 {",
+  "v0 := make(chan T0, len(p0))",
+  "for _, v1 := range p0 {",
+  "v0 <- v1",
   "}",
-  "close(out)",
-  "return out",
+  "close(v0)",
+  "return v0",
   "}"]
 
+/-- `func ToSeq[T any](ch <-chan T) []T`: p0 = ch, v0 = seq, v1 = x -/
 def ToSeq_text : List String := [
-  "func ToSeq[T any](ch <-chan T) []T {",
-  "seq := make([]T, 0)",
-  "for x := range ch {",
-  "seq = append(seq, x)",
+  "func ToSeq[T0 any](p0 <-chan T0) []T0 {",
+  "v0 := make([]T0, 0)",
+  "for v1 := range p0 {",
+  "v0 = append(v0, v1)",
   "}",
-  "return seq",
+  "return v0",
   "}"]
 
+/-- `func StdErr[T any](out <-chan T, exx <-chan error) <-chan T`: p0 = out, p1 = exx, v0 = err -/
 def StdErr_text : List String := [
-  "func StdErr[T any](out <-chan T, exx <-chan error) <-chan T {",
+  "func StdErr[T0 any](p0 <-chan T0, p1 <-chan error) <-chan T0 {",
   "go func() {",
-  "var err error",
-  "for err = range exx {",
-  "if err != nil {",
-  "slog.Error(\"pipe stage failed.\", \"error\", err)",
+  "var v0 error",
+  "for v0 = range p1 {",
+  "if v0 != nil {",
+  "slog.Error(\"pipe stage failed.\", \"error\", v0)",
   "}",
   "}",
   "}()",
-  "return out",
+  "return p0",
   "}"]
 
 end Golem.Model.GoText
